@@ -87,13 +87,14 @@ class World:
             self.keypaths[path] = "k%d" % (len(self.keypaths) + 1)
         return self.keypaths[path]
 
-    def begin(self, tid, client, srv, kind, keypath=None):
+    def begin(self, tid, client, srv, kind, keypath=None, url=None):
         self.kind[tid] = kind
         self.tsrv[tid] = srv
         self.posted[tid] = False
         self.asked[tid] = -1
         self.sentdt[tid] = 0
-        self.sched.spawn(tid, lambda: client.request_profile().read())
+        # (url: the per-call URL argument of request_profile - one client object asking another server)
+        self.sched.spawn(tid, (lambda: client.request_profile(url=url).read()) if url else (lambda: client.request_profile().read()))
 
     def classify(self, path):
         return pc_sched.classify(path, self.servers.values())
@@ -150,11 +151,11 @@ class World:
                 out[str(p)] = p.read_bytes()
         return out
 
-    def run_call(self, tid, client, srv, kind, crash_after=None):
+    def run_call(self, tid, client, srv, kind, crash_after=None, url=None):
         """a whole call, sequentially; crash_after = k: crash instead of performing the (k+1)-th I/O step.
         Returns the list of ops performed."""
         before = self.snapshot()
-        self.begin(tid, client, srv, kind)
+        self.begin(tid, client, srv, kind, url=url)
         ops = []
         startfile = None
         while self.sched.pending(tid) is not None:
@@ -590,6 +591,21 @@ def explore(ctx, mins, rnd, quick):
         scenario("interleaving: %s (%s)" % (order, "cache present" if pre else "cache absent"),
                  lambda w, order=order, pre=pre: interleave(w, order, pre))
     # S4: pairs of clients with equal / different ORG, FID, URL
+    # S5: ONE client object asking two servers (the url argument of request_profile / client.url reassigned)
+    for srv2 in ("s2", "s3", "s5"):
+        for kinds in (("newer", "uptodate", "uptodate"), ("newer", "newer", "uptodate"), ("bumpnewer", "older", "uptodate")):
+            for how in ("argument", "attribute"):
+                def body(w, srv2=srv2, kinds=kinds, how=how):
+                    c = w.client("s1")
+                    w.run_call("a0", c, "s1", kinds[0])
+                    if how == "argument":
+                        w.run_call("b0", c, srv2, kinds[1], url=w.servers[srv2].url)
+                    else:
+                        c.url = w.servers[srv2].url
+                        w.run_call("b0", c, srv2, kinds[1])
+                        c.url = w.servers["s1"].url
+                    w.run_call("a1", c, "s1", kinds[2])
+                scenario("one client, two servers (%s): then %s: %s" % (how, srv2, ",".join(kinds)), body)
     LO, LF = "O" * 32, "F" * 32       # identifiers at their maximum length
     for orgfid in ((("ORG", "FID"), ("ORG", "FID")), ((None, None), (None, None)), (("ORG", "F1"), ("ORG", "F2")), (("O1", "FID"), ("O2", "FID")),
                    ((LO, LF), (LO, LF)), (("ORG 1 & Co.", "F:1*?"), ("ORG 1 & Co.", "F:1*?"))):
